@@ -266,7 +266,8 @@ def unjson(s):
 SELFTEST_FLIP = {
     "ContentPackTrace": ("Get", lambda e: e.update(cid=e["cid"] + 1) if e["res"] == "match" else None),
     "EntryStoreTrace": ("Index", lambda e: e.update(count=e["count"] + 1)),
-    "EntryOrderTrace": ("Find", lambda e: e.update(res=e["res"] + 1) if e["res"] >= 0 else None),
+    "EntryOrderTrace": [("Find", lambda e: e.update(res=e["res"] + 1) if e["res"] >= 0 else None),
+                        ("Handles", lambda e: e.update(pos=[e["pos"][1], e["pos"][0]] + e["pos"][2:]) if len(e["pos"]) >= 2 else None)],
     "ClusterPipelineTrace": ("Seg", lambda e: e.update(tail=e["tail"] + 1)),
     "PackagingTrace": ("DumpDiff", lambda e: e.update(n=e["n"] + 1)),
     "ViewsTrace": ("Root", lambda e: e.update(size=e["size"] + 1)),
@@ -276,7 +277,8 @@ SELFTEST_FLIP = {
     "Layout": ("Ptr", lambda e: e.update(offset=e["offset"] + 1)),
 }
 SELFTEST_DROP = {"ContentPackTrace": "Add", "EntryStoreTrace": "Entry", "EntryOrderTrace": "Entry", "ClusterPipelineTrace": "NewCluster",
-                 "PackagingTrace": "Fs", "ViewsTrace": "Step", "IntegrityTrace": None, "AtomicCreateTrace": "Rename", "DecoderTrace": "Buf", "Layout": "Block"}
+                 "PackagingTrace": ("Loc", lambda e: e["pack"] != "d"), "ViewsTrace": ("Step", lambda e: e["op"] in ("cut", "stream", "into_stream", "to_region", "as_slice")),
+                 "IntegrityTrace": None, "AtomicCreateTrace": "Rename", "DecoderTrace": "Buf", "Layout": "Block"}
 
 
 def selftest_corrupt(module, events):
@@ -289,17 +291,20 @@ def selftest_corrupt(module, events):
     start = len(evs) // 3
     order = list(range(start, len(evs))) + list(range(0, start))
     if mode == "flip":
-        kind, f = SELFTEST_FLIP[module]
-        for i in order:
-            if evs[i]["ev"] == kind:
-                before = json.dumps(evs[i], sort_keys=True)
-                f(evs[i])
-                if json.dumps(evs[i], sort_keys=True) != before:
-                    log("[selftest] corrupted event %d of %s: %s" % (i, module, kind))
-                    return evs
+        alts = SELFTEST_FLIP[module]
+        for kind, f in (alts if isinstance(alts, list) else [alts]):
+            for i in order:
+                if evs[i]["ev"] == kind:
+                    before = json.dumps(evs[i], sort_keys=True)
+                    f(evs[i])
+                    if json.dumps(evs[i], sort_keys=True) != before:
+                        log("[selftest] corrupted event %d of %s: %s" % (i, module, kind))
+                        return evs
     elif mode == "drop" and SELFTEST_DROP.get(module):
+        d = SELFTEST_DROP[module]
+        kind, pred = d if isinstance(d, tuple) else (d, lambda e: True)
         for i in order:
-            if evs[i]["ev"] == SELFTEST_DROP[module]:
+            if evs[i]["ev"] == kind and pred(evs[i]):
                 log("[selftest] dropped event %d of %s: %s" % (i, module, evs[i]["ev"]))
                 del evs[i]
                 return evs
